@@ -13,7 +13,7 @@ ASSUMPTIONS = ["crypto/tls enforces TLS 1.3, proof of possession of the certific
 FILES = ["root/fake_test.go", "root/c16_test.go", "root/c07_test.go", "root/peers_test.go", "root/c18_test.go", "root/c03_test.go"]
 
 
-def run(ctx):
+def run(ctx, with_registry=True):
     rw = {"server.go": [(r"\btransport\.NewServerTransport\(", "vNewServerTransport(")],
           "client.go": [(r"\btransport\.NewClientTransport\(", "vNewClientTransport(")]}
     rc, out, recs = ctx.go("", "^TestVerifC03$", FILES, "wsrpc", timeout=600 if ctx.thorough else 300, rewrites=rw)
@@ -25,3 +25,8 @@ def run(ctx):
         if r.get("fail"):
             ctx.fail(r["fail"], "authentication monitor '%s' failed: %s" % (r["fail"], str(r.get("info"))[:300]), case=r)
     ctx.model("Run.RunC03", recs)
+    if with_registry:
+        # the allow-list against handshakes in progress at every step (gate-held: revoked between the certificate check, the
+        # upgrade and the registration): the registry histories of C11/C12, replayed through Registry.v
+        import props.C11 as c11
+        c11.run(ctx, name="C03-registry")
